@@ -57,7 +57,7 @@ def run(ids):
             subprocess.run(['git', '-C', '/repo', 'checkout', '--', '.'], check=True)
         lines = [l for l in r.stdout.splitlines() if l.startswith(('VIOLATION', 'ANALYSIS-BROKEN')) or '[' in l and ']' in l and ':' in l and not l.startswith('rule')]
         results[sid] = {'property': prop, 'exit': r.returncode, 'detected': r.returncode == 1,
-                        'report': [l for l in r.stdout.splitlines() if not l.startswith(('rule ', 'property '))][:8]}
+                        'report': [l for l in r.stdout.splitlines() if not l.startswith(('rule ', 'property ', 'KNOWN-FINDING'))][:8]}
         print(sid, prop, 'exit', r.returncode, 'DETECTED' if r.returncode == 1 else ('BROKEN' if r.returncode == 2 else 'missed'))
         for l in results[sid]['report'][:4]:
             print('    ', l[:220])
